@@ -57,7 +57,8 @@ func (c *Conversation) fragment(data encodedMessage, fraglen uint16) []ValidMess
 		return []ValidMessage{ValidMessage(data)}
 	}
 
-	numFragments := (l / realFraglen) + 1
+	// as many pieces as are needed, none of them empty
+	numFragments := (l + realFraglen - 1) / realFraglen
 	ret := make([]ValidMessage, numFragments)
 	for i := 0; i < numFragments; i++ {
 		start := i * realFraglen
